@@ -18,7 +18,7 @@ SPEC_FORMS = ('old', 'forall', 'exists', 'implies', 'ite', 'pow2', 'typeis', 'is
               'str_indexof', 'str_at', 'str_suffixof', 'Eq', 'wsonly', 'lstripped', 'val_eq',
               'U', 'app', 'splice', 'Bst', 'appb', 'Bin', 'appbin', 'is_binstr', 'binval',
               'prefix_same', 'outside_same', 'chars_eq', 'allspaces', 'allchar', 'is_bool', 'oval',
-              'isdigits', 'str2int')
+              'isdigits', 'str2int', 'same_dict', 'dval')
 
 
 def eval_call(eng, e, st, ctx):
@@ -395,6 +395,16 @@ def spec_form(eng, e, st, ctx):
         o = ctx.old_state
         return SV(BOOL, z3.And(z3.Select(st.hget(E.lkey(el)), x.z) == z3.Select(o.hget(E.lkey(el)), x.z),
                                z3.Select(st.hget(E.ekey(el)), x.z) == z3.Select(o.hget(E.ekey(el)), x.z)))
+    if name == 'same_dict':
+        x = ev1(a[0])
+        if ctx.old_state is None:
+            raise Unsupported('same_dict() outside a two-state clause')
+        o = ctx.old_state
+        return SV(BOOL, z3.And([z3.Select(st.hget(k), x.z) == z3.Select(o.hget(k), x.z) for k in E.dkeys(x.ty.key, x.ty.val)]))
+    if name == 'dval':
+        d, k = ev1(a[0]), ev1(a[1])
+        kk = eng.coerce(k, d.ty.key)
+        return SV(d.ty.val, z3.Select(z3.Select(st.hget(E.dkeys(d.ty.key, d.ty.val)[1]), d.z), kk.z))
     if name == 'list_eq_upto':
         # list_eq_upto(l, n): first n elements equal the old ones
         x, n = ev1(a[0]), ev1(a[1])
